@@ -715,6 +715,42 @@ func (c *EvalCtx) evalCall(e *SExpr) (SV, error) {
 		}
 		arr := ex.heapGet(c.st, "G:closed", SArray(SInt, SBool))
 		return SV{V: TV{ts.Select(arr, l)}, T: boolT}, nil
+	case "unchanged":
+		// unchanged(): nothing in the (modelled) heap differs from the old state:
+		// no store and no call with side effects happened on this path. Lock and
+		// allocation bookkeeping is excluded.
+		var conds []*Term
+		keys := map[string]bool{}
+		for k := range c.st.Heap {
+			keys[k] = true
+		}
+		for k := range c.old.Heap {
+			keys[k] = true
+		}
+		for k := range keys {
+			if k == "G:held" || k == "G:rheld" {
+				continue
+			}
+			var cur, old *Term
+			if t, ok := c.st.Heap[k]; ok {
+				cur = t
+			}
+			if t, ok := c.old.Heap[k]; ok {
+				old = t
+			}
+			if cur == nil && old == nil {
+				continue
+			}
+			if cur == nil {
+				cur = ex.initHeap(k, old.Sort)
+			}
+			if old == nil {
+				old = ex.initHeap(k, cur.Sort)
+			}
+			conds = append(conds, ts.Eq(cur, old))
+		}
+		sortTerms(conds)
+		return SV{V: TV{ts.And(conds...)}, T: boolT}, nil
 	case "ite":
 		if len(e.Args) != 3 {
 			return SV{}, fmt.Errorf("ite takes three arguments")
@@ -893,7 +929,7 @@ func (c *EvalCtx) havocTarget(e *SExpr) error {
 								} else {
 									key := ex.tm.FieldKey(ty, i)
 									if ex.prog.Pre.AddrTaken[key] {
-										ws[MemKey(ex.tm.SortOf(ft))] = true
+										ws[ex.tm.MemKey(ft)] = true
 									} else {
 										ws[key] = true
 									}
@@ -1003,3 +1039,11 @@ func (ex *Exec) localEnv(fr *Frame, st *State) map[string]SV {
 }
 
 var _ = ssa.NaiveForm
+
+func sortTerms(ts []*Term) {
+	for i := 1; i < len(ts); i++ {
+		for j := i; j > 0 && ts[j].ID < ts[j-1].ID; j-- {
+			ts[j], ts[j-1] = ts[j-1], ts[j]
+		}
+	}
+}
